@@ -6,6 +6,7 @@ import (
 	"errors"
 	"fmt"
 	"io"
+	"math"
 	"os"
 
 	bin "github.com/gagliardetto/binary"
@@ -101,6 +102,9 @@ func (r *Reader) GetMeta(key string) string {
 	return r.meta[key]
 }
 
+// maxHeaderSize bounds the header: every prefix present plus 1 MiB for magic, version and metadata.
+const maxHeaderSize = (math.MaxUint16+1)*(2+8) + 1<<20
+
 func readHeaderSize(reader io.ReaderAt) (int64, error) {
 	// read header size:
 	headerSizeBuf := make([]byte, 4)
@@ -116,6 +120,9 @@ func readHeader(reader io.ReaderAt) (map[[2]byte]uint64, map[string]string, int6
 	headerSize, err := readHeaderSize(reader)
 	if err != nil {
 		return nil, nil, 0, fmt.Errorf("failed to read header size: %w", err)
+	}
+	if headerSize > maxHeaderSize {
+		return nil, nil, 0, fmt.Errorf("header size %d exceeds max %d", headerSize, maxHeaderSize)
 	}
 	// read header bytes:
 	headerBuf := make([]byte, headerSize)
@@ -152,6 +159,9 @@ func readHeader(reader io.ReaderAt) (map[[2]byte]uint64, map[string]string, int6
 		if err != nil {
 			return nil, nil, 0, fmt.Errorf("failed to read numMeta: %w", err)
 		}
+		if numMeta > uint64(decoder.Remaining()) {
+			return nil, nil, 0, fmt.Errorf("numMeta %d exceeds the header size", numMeta)
+		}
 		meta := make(map[string]string, numMeta)
 		for i := uint64(0); i < numMeta; i++ {
 			key, err := decoder.ReadString()
@@ -171,6 +181,9 @@ func readHeader(reader io.ReaderAt) (map[[2]byte]uint64, map[string]string, int6
 		return nil, nil, 0, fmt.Errorf("failed to read numPrefixes: %w", err)
 	}
 	// prefix -> offset:
+	if numPrefixes > math.MaxUint16+1 {
+		return nil, nil, 0, fmt.Errorf("numPrefixes %d exceeds max %d", numPrefixes, math.MaxUint16+1)
+	}
 	prefixToOffset := make(map[[2]byte]uint64, numPrefixes)
 	for i := uint64(0); i < numPrefixes; i++ {
 		var prefix [2]byte
